@@ -258,7 +258,7 @@ def _run_case(case, ctx):
         rng = np.random.default_rng([case["seed"], nbits, 99, order == "big"])
         other = "little" if order == "big" else "big"
         # both bit orders alternate inside one process: a result must not depend on which order was used before at this depth/size
-        plan = [(n, order) for n in (1024, 4097, 65536, 17, 8 * 16 + 8, 8 * 17)] + [(n, o) for n in (4096, 20000, 1 << 20) for o in (other, order, other)]
+        plan = [(n, order) for n in (1024, 4097, 65536, 17, 8 * 16 + 8, 8 * 17)] + [(n, o) for n in (4096, 20000, 1 << 20) for o in (other, order, other)] + [((1 << 20) + 1, order)]
         for n, order in plan:
             ctx.evaluated()
             raw = rng.integers(0, 256, size=n).astype(np.uint8)
